@@ -393,10 +393,36 @@ def blocking_under_lock(repo):
     return out
 
 
+def channel_map_deletes(repo):
+    """Every ``self._channels.delete(..)`` in transport.py.  Both shutdown paths close the channels they find in the map,
+    so an open channel must stay in it: a delete is ok inside ``_unlink_channel`` (the channel removes itself when it
+    closes) or under ``if chanid in self.channel_events:`` (an open that is still pending, not an established channel)."""
+    tree = ast.parse(open(os.path.join(repo, "paramiko", "transport.py")).read())
+    out = []
+    for f in [n for n in ast.walk(tree) if isinstance(n, ast.FunctionDef)]:
+        par = {}
+        for n in ast.walk(f):
+            for c in ast.iter_child_nodes(n):
+                par[c] = n
+        for n in ast.walk(f):
+            if isinstance(n, ast.Call) and _src(n.func) == "self._channels.delete":
+                guarded, x = False, n
+                while x in par:
+                    p = par[x]
+                    if isinstance(p, ast.If) and "in self.channel_events" in _src(p.test) and \
+                            any(x is y for b in p.body for y in ast.walk(b)):
+                        guarded = True
+                    x = p
+                out.append({"file": "transport.py", "func": f.name, "lock": "self._channels.delete",
+                            "safe": f.name == "_unlink_channel" or guarded})
+    return out
+
+
 def lean_table(repo):
     ss = sites(repo)
     td = teardown(repo)
     bl = blocking_under_lock(repo)
+    cd = channel_map_deletes(repo)
     ws = wait_shapes(repo)
     sc, pc = closing_stmts(repo)
     lines = ["/- GENERATED by pv/lib_lockdisc.py from paramiko/*.py — do not edit. -/",
@@ -424,6 +450,11 @@ def lean_table(repo):
               ",\n".join('  { file := "%s", func := "%s", lock := "%s via %s", safe := %s }' %
                          (b["file"], b["func"], b["lock"], b["call"].replace('"', "'"), "true" if b["ok"] else "false")
                          for b in bl),
+              "]", "",
+              "/-- every removal from the transport's channel map -/",
+              "def channelMapDeletes : List LockSite := [",
+              ",\n".join('  { file := "%s", func := "%s", lock := "%s", safe := %s }' %
+                         (c["file"], c["func"], c["lock"], "true" if c["safe"] else "false") for c in cd),
               "]", "",
               "structure WaitShape where", "  row : String", "  kind : String", "  obj : String", "  precheck : Bool",
               "  loopChecksActive : Bool", "  loopChecksFlag : Bool", "  deriving Repr, DecidableEq", "",
